@@ -77,6 +77,7 @@ struct remote { struct urefcount urefcount; struct upipe *output; bool transferr
 UPIPE_HELPER_UPIPE(remote, upipe, REMOTE_SIGNATURE)
 enum { RE_ALLOC, RE_ATTACH, RE_INPUT, RE_SET_FLOW_DEF, RE_SET_OUTPUT, RE_GET_OUTPUT, RE_OTHER, RE_FREE };
 static bool frozen_window;      /* the application froze the worker loop and is allowed in */
+static bool last_alloc_got_mgr;  /* the last remote pipe allocated obtained a upump manager at allocation */
 
 static void remote_free(struct urefcount *urefcount)
 {
@@ -97,6 +98,12 @@ static struct upipe *remote_alloc(struct upipe_mgr *mgr, struct uprobe *uprobe, 
     r->upipe.refcount = &r->urefcount;
     wlog(W_REMOTE_ENTRY, RE_ALLOC, 0);
     upipe_throw_ready(&r->upipe);
+    /* like most pipes, ask for an event loop manager at once: inside a frozen
+     * section (the pipe is meant for another thread) this must be refused */
+    struct upump_mgr *m = NULL;
+    upipe_throw_need_upump_mgr(&r->upipe, &m);
+    last_alloc_got_mgr = m != NULL;
+    upump_mgr_release(m);
     return &r->upipe;
 }
 static void remote_input(struct upipe *upipe, struct uref *uref, struct upump **upump_p)
@@ -278,7 +285,14 @@ static void run_case(struct vh_rng *r)
     uprobe_init(&main_probe, main_throw, uprobe_use(chain));
     uprobe_init(&remote_probe, remote_throw, uprobe_use(chain));
 
+    /* the application allocates the pipes of the worker inside a section where
+     * its own event loop manager is frozen; upipe_w*_alloc freezes and thaws
+     * on its own inside, which must not end the outer section */
+    bool outer_freeze = vh_chance(R, 1, 2);
+    if (outer_freeze) uprobe_throw(chain, NULL, UPROBE_FREEZE_UPUMP_MGR);
     struct upipe *remote = upipe_void_alloc(&remote_mgr, uprobe_use(&remote_probe));
+    if (outer_freeze && last_alloc_got_mgr)
+        vh_violation_noabort("c06:worker:upump-mgr-given-inside-frozen-section", "a pipe allocated inside a frozen section obtained the application's event loop manager");
     xfer_mgr = upipe_xfer_mgr_alloc(xfer_q, 2, NULL);
     upipe_mgr_use(xfer_mgr);        /* reference handed to the worker thread */
     struct upipe_mgr *wlin_mgr = upipe_wlin_mgr_alloc(xfer_mgr);
@@ -287,6 +301,19 @@ static void run_case(struct vh_rng *r)
     handle = upipe_wlin_alloc(wlin_mgr, uprobe_use(&main_probe), remote, uprobe_use(&remote_probe), in_q, out_q);
     upipe_mgr_release(wlin_mgr);
     if (!handle) vh_violation("c06:worker:alloc", "wlin allocation failed");
+    if (outer_freeze) {
+        /* still inside the outer section: another pipe meant for a worker */
+        struct upipe *b = upipe_void_alloc(&remote_mgr, uprobe_use(&remote_probe));
+        if (last_alloc_got_mgr)
+            vh_violation_noabort("c06:worker:upump-mgr-given-inside-frozen-section", "after upipe_wlin_alloc (which freezes and thaws internally) a pipe allocated in the still frozen outer section obtained the application's event loop manager: its pumps would run in the application thread");
+        upipe_release(b);
+        uprobe_throw(chain, NULL, UPROBE_THAW_UPUMP_MGR);
+        struct upipe *c = upipe_void_alloc(&remote_mgr, uprobe_use(&remote_probe));
+        if (!last_alloc_got_mgr)
+            vh_violation_noabort("c06:worker:upump-mgr-refused-after-thaw", "after the outer section was thawed a pipe is still refused the event loop manager");
+        upipe_release(c);
+        VH_COUNT("c06.frozen_sections_checked");
+    }
     my_thr = -1;
 
     sched_fn fns[2] = { application, worker }; void *args[2] = { NULL, NULL };
